@@ -49,7 +49,7 @@ meta["demo_with_patch"] = {"rc": d1.returncode, "tail": d1.stdout.strip().splitl
 results = {}
 for c in CHECKS:
     e2 = dict(os.environ, AIU_REPO=WT, VERIF_JOBS=os.environ.get("VERIF_JOBS", "8"))
-    rr = subprocess.run(["/venv/bin/python", "harness/check.py", c, "--tier", "quick"], cwd="/verif", env=e2,
+    rr = subprocess.run(["/venv/bin/python", "harness/check.py", c, "--tier", "quick"], cwd=os.environ.get("SEED_VERIF", "/verif"), env=e2,
                         stdout=subprocess.PIPE, stderr=subprocess.STDOUT, text=True, timeout=3600)
     lines = [ln for ln in rr.stdout.splitlines() if ln.startswith(("VIOLATION", "KNOWN-FINDING", f"[{c}]"))]
     det = {"exit": rr.returncode, "lines": lines}
